@@ -338,6 +338,33 @@ def run(model, col, tier):
 
     args_ok = any("Arguments.values()" in unparse(it) and any("_ConvertType" in unparse(b) for b in body) for it, tgt, body, kind in iterations(cft))
     col.check(args_ok, "R07.5", f"{GEN}::_ConvertFunctionType parameters", "every parameter type is converted in order", None, GEN, cft)
+    # roles: the list built from the parameters goes to the signature's parameter slot, the one built from the return type to its result slot
+    fti = model.cls(WA, "FunctionType").own_method("__init__")
+    ftw = model.cls(WA, "FunctionType").own_method("WriteTo")
+    slots = [a.arg for a in fti.args.args[1:]]
+    fields = {}
+    for n in ast.walk(fti):
+        if isinstance(n, ast.Assign) and isinstance(n.targets[0], ast.Attribute) and isinstance(n.value, ast.Name) and n.value.id in slots:
+            fields[n.value.id] = n.targets[0].attr
+    order_w = [unparse(lp.iter).split(".")[-1] for lp in ast.walk(ftw) if isinstance(lp, ast.For)]  # vec(params) is written first, then vec(results)
+    mk = [c for c in ast.walk(cft) if isinstance(c, ast.Call) and last_attr(c) == "FunctionType"]
+    role = {}
+    for nm_ in {a.id for c in mk for a in c.args if isinstance(a, ast.Name)}:
+        fed = " ".join(unparse(n) for n in ast.walk(cft) if isinstance(n, (ast.For, ast.If, ast.Assign)) and f"{nm_}.append" in unparse(n) or (isinstance(n, ast.Assign) and unparse(n.targets[0]) == nm_))
+        role[nm_] = "params" if "Arguments" in fed else "results" if "ReturnType" in fed else "?"
+    good_roles = False
+    if mk and len(slots) == 2 and len(order_w) == 2 and all(isinstance(a, ast.Name) for a in mk[0].args) and len(mk[0].args) == 2 and not mk[0].keywords:
+        first_field, second_field = order_w
+        passed = {fields.get(slots[0]): role.get(mk[0].args[0].id), fields.get(slots[1]): role.get(mk[0].args[1].id)}
+        good_roles = passed.get(first_field) == "params" and passed.get(second_field) == "results"
+    elif mk and mk[0].keywords:
+        kw_ = {k.arg: role.get(k.value.id) if isinstance(k.value, ast.Name) else "?" for k in mk[0].keywords}
+        pos_ = {slots[i]: role.get(a.id) if isinstance(a, ast.Name) else "?" for i, a in enumerate(mk[0].args)}
+        passed = {fields.get(s_): r_ for s_, r_ in {**pos_, **kw_}.items()}
+        good_roles = len(order_w) == 2 and passed.get(order_w[0]) == "params" and passed.get(order_w[1]) == "results"
+    col.check(good_roles, "R07.5", f"{GEN}::_ConvertFunctionType roles", "parameter types fill the vector written first, result types the vector written second",
+              f"FunctionType is built with {[unparse(a) for a in mk[0].args] if mk else None} (roles {role}); the writer emits {order_w} in that order: parameters and results are exchanged, "
+              "every signature with a result is wrong", GEN, mk[0] if mk else cft)
     ctf = model.func(GEN, "_ConvertType")
     nonval = [unparse(r.value) for r in ast.walk(ctf) if isinstance(r, ast.Return) and r.value is not None and "ValueType." not in unparse(r.value) and "HeapType" not in unparse(r.value)]
     if nonval:
